@@ -276,14 +276,12 @@ def extract(repo):
         raise RuntimeError("extractor found no fetch_h5_handle inside H5Writer / H5Reader")
     if fa_default is None:
         raise RuntimeError("extractor did not find the definition of fetch_active_workspace")
-    for h in HELPER_BLOCKS:
-        if not any(c["encl"] == h for c in fa_calls):
-            raise RuntimeError(f"extractor found no fetch_active_workspace block inside {h} (helper renamed or restructured)")
     return {"iocalls": rows, "fetch": fetch, "reader_mut": rmut, "fa_default": fa_default, "fa_calls": fa_calls}
 
 
-# the helpers property C10 names: "loading a ui.json" (InputFile.data setter) and "exporting a copy to a monitoring directory"
-HELPER_BLOCKS = ("InputFile.data", "monitored_directory_copy")
+# the helpers property C10 names ("loading a ui.json", "exporting a copy to a monitoring directory") live in these modules; every
+# fetch_active_workspace block found there is a helper block, wherever a refactoring moves it (no function name is relied on)
+HELPER_BLOCKS = ("geoh5py/ui_json/",)
 
 
 def _row_v(r):
